@@ -261,6 +261,57 @@ def spec_compare_paths(steps, stab_like=False):
     return out
 
 
+def commute_empty(paths, leaf="width"):
+    """Canonical order for an emptiness test next to a length-class-preserving leaf.
+    `width` maps every character to exactly one character and can fail only on a non-empty string, so
+    `is_empty(x)` and `is_empty(width(x))` are the same test and the two checks commute: a path set that tests
+    emptiness *before* the leaf is rewritten to the specification's order (leaf first). The per-character
+    discipline this relies on is C11's, which the profile checks adopt as a dependency."""
+    paths = list(paths)
+    out = []
+    # which (prefix, tag) pairs are followed by the leaf on a sibling path
+    follows = {}
+    for p in paths:
+        evs = p[0]
+        if not isinstance(evs, tuple):
+            continue
+        for i in range(len(evs) - 1):
+            e, f = evs[i], evs[i + 1]
+            if e[0] == "empty?" and e[2] is False and f[0] == leaf and f[1] == e[1]:
+                k = 1 + sum(1 for x in evs[:i] if x[0] not in ("empty?", "str-eq") and not x[0].startswith("probe:"))
+                follows[(evs[:i], e[1])] = k
+    for p in paths:
+        evs = p[0]
+        if not isinstance(evs, tuple):
+            out.append(p)
+            continue
+        new = []
+        i = 0
+        changed = False
+        while i < len(evs):
+            e = evs[i]
+            if e[0] == "empty?" and e[2] is False and i + 1 < len(evs) and evs[i + 1][0] == leaf and evs[i + 1][1] == e[1] and (evs[:i], e[1]) in follows:
+                f = evs[i + 1]
+                k = follows[(evs[:i], e[1])]
+                new.append(f)
+                if f[2] == "Ok":
+                    new.append(("empty?", ("out", k), False))
+                i += 2
+                changed = True
+                continue
+            if e[0] == "empty?" and e[2] is True and i == len(evs) - 1 and (evs[:i], e[1]) in follows and p[1] == ("Err", "Invalid"):
+                k = follows[(evs[:i], e[1])]
+                new.append((leaf, e[1], "Ok"))
+                new.append(("empty?", ("out", k), True))
+                i += 1
+                changed = True
+                continue
+            new.append(e)
+            i += 1
+        out.append((tuple(new), p[1]) if changed else p)
+    return out
+
+
 def diff_paths(got, want):
     """Human-readable differences between two path sets."""
     gs, ws = set(got), set(want)
